@@ -1,0 +1,22 @@
+//go:build verif
+
+// Contracts for package edgengram (read by /verif/gocv; comment-only effect with the verif tag off).
+
+package edgengram
+
+// ---------------------------------------------------------------------------
+// C19: the edge n-gram filter never indexes out of range; every n-gram keeps the offsets and the
+// position of the token it was cut from
+// ---------------------------------------------------------------------------
+
+//@ spec cutFromE(t *analysis.Token, src *analysis.Token) bool = t.Start == src.Start && t.End == src.End && t.Position == src.Position
+//@ spec edgeOK(rv analysis.TokenStream, input analysis.TokenStream) bool = forall(k, 0, len(rv), rv[k] != nil && exists(j, 0, len(input), cutFromE(rv[k], input[j])))
+
+//@ func EdgeNgramFilter.Filter
+//@   props C19
+//@   mode int
+//@   requires s != nil && s.minLength >= 0 && s.maxLength <= 1073741824 && forall(k, 0, len(input), input[k] != nil)
+//@   ensures edgeOK(result, input)
+//@   loop 0: invariant fresh(rv) && edgeOK(rv, input)
+//@   loop 1: invariant fresh(rv) && edgeOK(rv, input) && s.minLength <= ngramSize && i == runeCount && runeCount == len(runes) && forall(k, 0, len(runes), runeValid(runes[k])) && fresh(runes)
+//@   loop 2: invariant fresh(rv) && edgeOK(rv, input) && s.minLength <= ngramSize && i == 0 && runeCount == len(runes) && forall(k, 0, len(runes), runeValid(runes[k])) && fresh(runes)
